@@ -153,7 +153,19 @@ def run(R):
     # ---- comments are invisible: nothing is emitted or accumulated while inside a `--` comment
     R.rule("C20.comment", "inside a `--` comment no token is emitted and no literal / identifier text is accumulated: every token emission and "
                           "every character push of the tokenizer loop is dominated by the `not in a comment` edge")
-    cl = [l for l, d in enumerate(tf.locals) if d.get("name") == "is_comment"]
+    # the comment flag: the bool local set to `true` where the last token is matched as the operator Dual('-', '-')
+    cl = []
+    for sw in sorted(tf.reach):
+        t = tf.blocks[sw]["term"]
+        if t["k"] == "switch" and t["discr"]["k"] in ("copy", "move") and \
+                any(isinstance(e, dict) and e.get("d") == "Dual" for e in t["discr"]["pl"]["p"]) and any(v == "45" for v, _ in t["targets"]):
+            tgt = [b for v, b in t["targets"] if v == "45"][0]
+            for i, st in tf.stmts():
+                if tf.dominates(tgt, i) and st["k"] == "assign" and not st["pl"]["p"] and st["rv"]["k"] == "use" and \
+                        st["rv"]["op"]["k"] == "const" and st["rv"]["op"].get("v") == "true" and tf.local_ty(st["pl"]["l"]) == "bool" and \
+                        tf.local_name(st["pl"]["l"]):
+                    if st["pl"]["l"] not in cl:
+                        cl.append(st["pl"]["l"])
     csw = []
     for sw in sorted(tf.reach):
         t = tf.blocks[sw]["term"]
